@@ -45,13 +45,16 @@ class StochHooks(Hooks):
                 it.probe('seeded_after_reseed')
         if fn in SEEDED and out.ok:
             # repeat = first (F6) and a different seed gives a different draw
-            sig = repr((fn, ev.get('a'), {kk: v for kk, v in k.items() if kk != 'seed'}))
+            # "same arguments" means same values: a Fortran-ordered or transposed-view frame with equal content is the same frame
+            sig = repr((fn, [it.dig(it.resolve(x)) for x in ev.get('a', [])], {kk: v for kk, v in k.items() if kk != 'seed'}))
             d = it.dig(out.value)
             seeds = self.by_call.setdefault(sig, {})
             sd = repr(k.get('seed'))
             if sd in seeds:
                 it.probe('check:repro')
                 it.fault('dup')
+                if tag.get('layout_twin'):
+                    it.probe('layout_twin')
                 if seeds[sd] != d:
                     it.violate('C18.repro', {'fn': fn, 'what': 'repeat'},
                                '%s with the same arguments and seed %s returned a different frame the second time' % (fn, sd), i)
@@ -220,7 +223,7 @@ class StochasticScenario(Scenario):
                    'pixel >= 100 on >= 16 pixels (collision probability < 1e-30)',
                    'seed=None (OS entropy) is never used: the simulator always passes seeds']
     must_hit = ['seeded_after_reseed', 'psd_nonsquare', 'psd_square', 'shot_bad_signal:gaussian', 'shot_bad_signal:poisson',
-                'moments:shot_poisson', 'moments:shot_gaussian', 'moments:read', 'dark_no_fpn', 'cosmic_hit']
+                'moments:shot_poisson', 'moments:shot_gaussian', 'moments:read', 'dark_no_fpn', 'cosmic_hit', 'layout_twin']
     probe_names = must_hit + ['coldwarm_audit']
 
     # ---------------------------------------------------------------- generation
@@ -233,6 +236,7 @@ class StochasticScenario(Scenario):
         ev.append({'c': -1, 'fn': 'array', 'id': 'FLAT', 'recipe': {'kind': 'const', 'shape': 'F', 'value': lam}})
         ev.append({'c': -1, 'fn': 'array', 'id': 'FLATG', 'recipe': {'kind': 'const', 'shape': 'F', 'value': rng.choice([1500.0, 4e4, 1e6])}})
         ev.append({'c': -1, 'fn': 'array', 'id': 'IMG', 'recipe': {'kind': 'uniform', 'shape': 'F', 'lo': 100.0, 'hi': 5000.0, 'seed': rng.randrange(10 ** 6)}})
+        ev.append({'c': -1, 'fn': 'array', 'id': 'IMGG', 'recipe': {'kind': 'uniform', 'shape': 'F', 'lo': 1500.0, 'hi': 90000.0, 'seed': rng.randrange(10 ** 6)}})
         ev.append({'c': -1, 'fn': 'array', 'id': 'IMGL', 'recipe': {'kind': 'uniform', 'shape': 'F', 'lo': 0.0, 'hi': 20.0, 'seed': rng.randrange(10 ** 6)}})
         ev.append({'c': -1, 'fn': 'array', 'id': 'NEG', 'recipe': {'kind': 'add', 'x': {'kind': 'uniform', 'shape': 'F', 'lo': 1500.0, 'hi': 5000.0, 'seed': 1},
                                                                    'y': {'kind': 'spike', 'shape': 'F', 'value': -9000.0, 'pos': [rng.randint(0, 2), rng.randint(0, 2)]}}})
@@ -244,6 +248,9 @@ class StochasticScenario(Scenario):
         # integer-typed electron frames (read noise must still be zero-mean with the requested sigma)
         ev.append({'c': -1, 'fn': 'array', 'id': 'IMGI', 'recipe': {'kind': 'integers', 'shape': 'F', 'lo': 100, 'hi': 5000, 'seed': rng.randrange(10 ** 6),
                                                                     'dtype': rng.choice(['int32', 'int64', 'uint16'])}})
+        ev.append({'c': -1, 'fn': 'asfortran', 'id': 'IMG_F', 'a': ['@IMG']})
+        ev.append({'c': -1, 'fn': 'transposed_view', 'id': 'IMG_T', 'a': ['@IMG']})
+        ev.append({'c': -1, 'fn': 'asfortran', 'id': 'FLATG_F', 'a': ['@IMGG']})
         ev.append({'c': -1, 'fn': 'array', 'id': 'MQ', 'recipe': {'kind': 'disk', 'shape': 'Q', 'radius': world['shapes']['Q'][0] / 2.0 - 0.2}})
         ev.append({'c': -1, 'fn': 'array', 'id': 'MR', 'recipe': {'kind': rng.choice(['disk', 'rect', 'ones']), 'shape': 'R', 'radius': 3.3,
                                                                   'half': [2, 4]}})
@@ -281,10 +288,18 @@ class StochasticScenario(Scenario):
             r = rng.random()
             if r < 0.3:
                 method = rng.choice(['poisson', 'gaussian'])
-                img = rng.choice(['FLAT', 'IMG', 'IMGL', 'FLATG', 'NEG', 'HUGE', 'HUGE2']) if method == 'poisson' else \
-                    rng.choice(['FLATG', 'IMG', 'FLATG', 'NEG', 'HUGE', 'IMGL', 'HUGE2'])
+                img = rng.choice(['FLAT', 'IMG', 'IMGL', 'FLATG', 'NEG', 'HUGE', 'HUGE2', 'IMG_F', 'IMG_T']) if method == 'poisson' else \
+                    rng.choice(['FLATG', 'IMG', 'FLATG', 'NEG', 'HUGE', 'IMGL', 'HUGE2', 'IMGG', 'FLATG_F', 'IMG_F', 'IMG_T'])
                 E('shot_noise', ['@' + img], {'method': method, 'seed': seed()},
-                  t={'distinct_expected': img == 'IMG'})
+                  t={'distinct_expected': img in ('IMG', 'IMG_F', 'IMG_T')})
+                if img in ('IMG', 'IMGG') and rng.random() < 0.5:
+                    # the same frame in another memory layout, same seed: same draw
+                    twin = {'IMG': rng.choice(['IMG_F', 'IMG_T']), 'IMGG': 'FLATG_F'}[img]
+                    d = copy.deepcopy(out[-1])
+                    d['a'] = ['@' + twin]
+                    d['id'] = d['id'] + 'L'
+                    d.setdefault('t', {})['layout_twin'] = True
+                    out.append(d)
             elif r < 0.45:
                 E('read_noise', ['@' + rng.choice(['IMG', 'FLAT', 'IMGI']), rng.choice([0.4, 1.0, 5.0, 12.5])], {'seed': seed()}, t={'distinct_expected': True})
             elif r < 0.6:
@@ -376,6 +391,11 @@ class StochasticScenario(Scenario):
                 E('shot_noise', ['@FLATG'], {'method': method, 'seed': 5}, t={'dup': True})
                 E('shot_noise', ['@FLATG'], {'method': method, 'seed': 6})
             E('shot_noise', ['@FLAT'], {'method': 'poisson', 'seed': 11})
+            for method in ('poisson', 'gaussian'):
+                E('shot_noise', ['@IMGG'], {'method': method, 'seed': 77})
+                E('shot_noise', ['@FLATG_F'], {'method': method, 'seed': 77}, t={'layout_twin': True})
+                E('shot_noise', ['@IMG_T'], {'method': method, 'seed': 5}, t={'layout_twin': True})
+            E('read_noise', ['@IMG_F', 7.5], {'seed': 3}, t={'layout_twin': True})
             for method in ('poisson', 'gaussian'):
                 E('shot_noise', ['@HUGE2'], {'method': method, 'seed': 5})
                 for sd_ in (40, 41, 42, 43):
